@@ -5,7 +5,7 @@ import random
 import shutil
 import tempfile
 
-from .. import fp, monitors, mutate, layout
+from .. import fp, monitors, mutate, layout, fixedform
 from ..common import digest, free_reader
 from ..gen.program import generate
 from .base import viol
@@ -18,7 +18,7 @@ STEP_BUDGET = 3_000_000
 RULE = ("inputs: (a) 1-3 token/character/line mutations (delete, duplicate, swap, replace by punctuation or keyword; char "
         "overwrite/insert/delete; line delete/duplicate/move/join) of generated valid programs in canonical and random "
         "free-form layout; (b) unstructured random lines over the Fortran character set mixed with keyword soup; "
-        "(c) both standards x ignore_comments x process_directives, format auto-detected or stated; (d) byte level: "
+        "and fixed-form rendering; (c) both standards x ignore_comments x process_directives, format auto-detected or stated; (d) byte level: "
         "valid programs with random bytes 0x80-0xFF, truncated UTF-8 sequences and NULs spliced in, read through "
         "FortranFileReader. Oracle at the API boundary: create(std)(reader) then str(tree) either returns or raises "
         "FortranSyntaxError; anything else (NoMatchError, InternalError, AssertionError, IndexError, SystemExit, ...) is "
@@ -77,6 +77,11 @@ def run_one(text, std, opts, how, raw=None):
                 reader = fp.FortranFileReader(path, **opts)
             elif how == "free":
                 reader = free_reader(text, **opts)
+            elif how == "fixed":
+                from fparser.common.sourceinfo import FortranFormat
+
+                reader = fp.FortranStringReader(text, **opts)
+                reader.set_format(FortranFormat(False, False))
             else:
                 reader = fp.FortranStringReader(text, **opts)
             tree = parser(reader)
@@ -151,11 +156,15 @@ def check(payload):
         parent = None
         if mode < 0.7:
             P = base_program(r.randrange(300), std)
-            if r.random() < 0.5:
+            c = r.random()
+            if c < 0.4:
                 parent = P.canonical()
-            else:
+            elif c < 0.8:
                 parent, _ = layout.render(P, random.Random(r.getrandbits(32)),
                                           dict(p_cont=0.2, p_semi=0.1, p_case=0.2, comments=True, indent="depth"))
+            else:
+                parent, _ = fixedform.render(P, random.Random(r.getrandbits(32)), dict(wrap=r.choice([72, 50]), comments=True, p_semi=0.1))
+                how = r.choice(["fixed", "auto"])
             text = mutate.mutate_text(parent, r)
             m = "mutant"
         elif mode < 0.85:
